@@ -95,6 +95,12 @@ CORPUS = [
     ("stretch-above-16-bits-at-level-1", H + "table(glyph) cA = glyphid(3..6) {justify.1.stretch = 70000m}; cB = glyphid(7..10); endtable;\n" + OKRULE, None, {}),
     ("attribute-on-deleted-item", H + G + "table(sub) cA cB > cC _ {user1 = 2}; endtable;\n", None, {}),
     ("attributes-on-two-deleted-items", H + G + "table(sub) cA cB cC > cC _ {user1 = 2} _ {user2 = 3; user1 = 1}; cB > cA; endtable;\n", None, {}),
+    # every spelling of a point: point() with 2 and 4 arguments, gpoint() and gpath() with 1 and 3, box()
+    ("point-functions-offsets", H + "table(glyph) cA = glyphid(3..6) {p1 = point(10m, 20m); p2 = point(10m, 20m, 3m, 4m); p3 = gpoint(2); p4 = gpoint(3, 10m, 20m); p5 = gpath(0); p6 = gpath(0, 5m, 6m); component.a = box(0, 0, 100m, 200m)}; cB = glyphid(7..10) {q = gpoint(1, 2m, 3m)}; endtable;\n"
+     "table(pos) cA cB {attach {to = @1; at = p4; with = q}}; endtable;\n", ["-q", "-offsets", "p.gdl", "in.ttf", "out.ttf"], {}),
+    ("point-functions", H + "table(glyph) cA = glyphid(3..6) {p1 = point(10m, 20m); p2 = point(10m, 20m, 3m, 4m); p3 = gpoint(2); p4 = gpoint(3, 10m, 20m); p5 = gpath(0); p6 = gpath(0, 5m, 6m); component.a = box(0, 0, 100m, 200m)}; cB = glyphid(7..10) {q = gpoint(1, 2m, 3m)}; endtable;\n"
+     "table(pos) cA cB {attach {to = @1; at = p2; with = q}}; endtable;\n", None, {}),
+    ("gpoint-two-arguments", H + "table(glyph) cA = glyphid(3..6) {p4 = gpoint(3, 10m)}; cB = glyphid(7..10); endtable;\n" + OKRULE, None, {}),
     ("family-name-200", H + G + OKRULE, None, {"family": "F" * 200}),
     ("family-name-1000", H + G + OKRULE, None, {"family": "F" * 1000}),
     ("codepoint-to-ffff", H + "table(glyph) cA = codepoint(65..65535); cB = glyphid(7..9); endtable;\ntable(sub) cA > cB; endtable;\n", None, {}),
